@@ -1,13 +1,15 @@
 import TwistedModel.Http.Client
 import TwistedProps.C23.Body
 import TwistedProps.C23.Control
+import TwistedProps.C23.Data
+import TwistedProps.C23.Split
 /-!
 # C23 — the HTTP/1.1 client completes every request exactly once, with the exact body
 
 Model: `TwistedModel/Http/Client.lean` (`HTTPParser`/`HTTPClientParser`, `Response`, `HTTP11ClientProtocol`,
 as repaired by the C23 fix), decoders: the C22 models.
 
-FULL STATEMENT (the target; NOT all of it is proved here):
+FULL STATEMENT (the target; the exactly-once part is proved in full, the rest in part):
 
   for every request mode `h p a d`, every event script `evs` (deliveries of arbitrary bytes in arbitrary
   segmentation, deliverBody / abort / cancel / request-written / request-failed at arbitrary positions)
@@ -20,22 +22,39 @@ FULL STATEMENT (the target; NOT all of it is proved here):
 
 WHAT IS PROVED (all for unbounded inputs, by induction / invariants):
 
-* `request_deferred_fires_once_partial` — the exactly-once claim for every script of CONTROL events (loss,
-  abort, cancel, request written, request failed, deliverBody, in any order and number) on a connection that
-  delivered no response byte; the firing is never `.response`.  This is the part of the protocol state
-  machine in which the three defects of the unchanged tree lived (ABORTING, TRANSMITTING).
+* `request_deferred_fires_once` — EXACTLY ONCE, IN FULL GENERALITY: for every request mode and EVERY event script
+  (deliveries of arbitrary bytes — any response stream, well-formed or not, in any segmentation — interleaved in
+  any way with deliverBody / abort / cancel / request-written / request-failed) that contains the loss of the
+  connection (any truncation point), `fires.length = 1`; `request_deferred_fires_at_most_once`: `≤ 1` for every
+  script without the loss.  Structure of the proof (this is what the flat 30-field record needed):
+    - `TwistedProps/C23/Abs.lean`: the control abstraction `K` (protocol state, parser attached, the two
+      Deferreds, kind of decoder, parser DONE, Response state, 4 flags), the projection `proj : S → K`, a small
+      copy `…K` of every operation on `K`, and one homomorphism lemma per operation (`proj_fireResp`,
+      `proj_disconnectParser`, `proj_finishResponse`, `proj_allHeadersReceived`, `proj_connectionLost`, …);
+    - `TwistedProps/C23/Inv.lean`: the invariant `InvK` on `K` and its preservation by every `…K` operation (case
+      analysis over `K` only, `fireFinK`/`bodyFinishedK` kept folded behind field lemmas);
+    - `TwistedProps/C23/Data.lean`: the `dataReceived` path: `good_lineReceived`, `good_rawDataReceived` (any
+      decoder result of the C22 decoder models, raise included), `good_lrLoop` (induction over the buffer),
+      `inv_dataReceived`.
+* `control_only_fires_once_never_response` (the former partial theorem) — on a connection that delivered no
+  response byte the single firing is never `.response`.
 * `body_delivered_eq_body_received`, `body_connectionLost_once_with_right_reason` — the `Response` body state
-  machine: whatever the decoder emitted before/after `deliverBody` reaches the body protocol exactly, in
-  order, once; `connectionLost` is called exactly once with exactly the reason given to `_bodyDataFinished`
+  machine: whatever the decoder emitted before/after `deliverBody` reaches the body protocol exactly, in order,
+  once; `connectionLost` is called exactly once with exactly the reason given to `_bodyDataFinished`
   (`ResponseDone` when none), whether `deliverBody` comes before or after the end of the body; nothing is
   accepted after the end.
 
-MISSING for the full statement: preservation of the control invariant by `dataReceived` (the `lrLoop` /
-`lineReceived` / `allHeadersReceived` / `rawDataReceived` path: the invariant is `Inv` = `NoData` without
-its first three fields plus "respD fired ∧ parser attached → past the head"), and the characterisation of
-"complete head" / "decoder output = body" through the line loop for every segmentation.  On that path the
-claim is supported only by the tie and the oracle (every truncation point × segmentation on the real code),
-not by a proof.
+STILL MISSING for the full statement (tie + oracle only): (1) WHICH value the single firing has — `.response` iff the
+bytes delivered before the loss contain a complete, well-formed head.  The splitting lemma for the line loop IS
+proved (`TwistedProps/C23/Split.lean`: `lrLoop_line` — `lrLoop s (line ++ 10 :: rest)` = `lineReceived s line` then
+`lrLoop … rest`; `lrLoop_partial` — a trailing partial line is buffered unchanged; both under the documented limit of
+16384 bytes per line); what is missing is its iteration over the head lines (a pure scan of the head that is
+independent of the segmentation) and the evaluation of `allHeadersReceived` on its result; (2) the link from the wire to the arguments of
+the Response-layer theorems: that the pieces handed to `_bodyDataReceived` are exactly the `data` increments of the
+C22 decoder run over the body bytes received (then `decode_encode` / `identity_decoder_exact` /
+`data_loss_on_truncation` of `TwistedProps/C22.lean` give "= the body", and the reason given to
+`_bodyDataFinished` is `ResponseDone` / `PotentialDataLoss` / `ResponseFailed([reason, _DataLoss])` by
+`parserConnectionLost`).
 -/
 namespace TwistedProps.C23
 open Twisted.Http.Client
@@ -102,7 +121,7 @@ theorem noData_lost_fired (s : S) (h : NoData s) (hc : s.cstate = .connectionLos
 /-- **Exactly once, control part** (partial: scripts without `dataReceived`).  Whatever the request mode and
     whatever the order and number of abort / cancel / written / failed / deliverBody events around the loss of
     the connection, the request Deferred fires exactly once, and not with a response. -/
-theorem request_deferred_fires_once_partial (h p a d : Bool) (evs : List Event)
+theorem control_only_fires_once_never_response (h p a d : Bool) (evs : List Event)
     (hctl : ∀ e ∈ evs, isControl e = true) (hlost : ∃ r, Event.lost r ∈ evs) :
     (run (Twisted.Http.Client.init h p a d) evs).fires.length = 1 ∧
       Fire.response ∉ (run (Twisted.Http.Client.init h p a d) evs).fires := by
@@ -110,7 +129,7 @@ theorem request_deferred_fires_once_partial (h p a d : Bool) (evs : List Event)
   exact ⟨noData_lost_fired _ i1 (i2 (Or.inr hlost)), i1.nr⟩
 
 /-- without the loss of the connection: at most once -/
-theorem request_deferred_fires_at_most_once_partial (h p a d : Bool) (evs : List Event)
+theorem control_only_fires_at_most_once (h p a d : Bool) (evs : List Event)
     (hctl : ∀ e ∈ evs, isControl e = true) :
     (run (Twisted.Http.Client.init h p a d) evs).fires.length ≤ 1 := by
   obtain ⟨⟨_, _, _, f1, f2, _, _, _, _⟩, _⟩ := run_noData evs _ (noData_init h p a d) hctl
@@ -128,6 +147,106 @@ example : (run (Twisted.Http.Client.init false true true true)
 
 example : (run (Twisted.Http.Client.init false false false false) [.cancel, .deliver, .lost .connectionLost]).fires =
     [.neverReceived [.cancelled]] := by decide
+
+/-! ### exactly once, for EVERY event script (data included) -/
+
+theorem inv_init (h p a d : Bool) : InvK (proj (Twisted.Http.Client.init h p a d)) := by
+  constructor <;> cases a <;> simp [Twisted.Http.Client.init, proj, dkOf]
+
+/-- every event preserves the invariant and only appends to the firings of the request Deferred -/
+theorem inv_step (s : S) (e : Event) (h : InvK (proj s)) :
+    InvK (proj (step s e)) ∧ s.fires <+: (step s e).fires := by
+  cases e with
+  | data b => exact inv_dataReceived s b h
+  | lost r =>
+    have := (inv_connectionLost _ r h).1
+    rw [← proj_connectionLost] at this
+    exact this
+  | deliver => have := inv_deliver _ h; rw [← proj_deliver] at this; exact this
+  | written => have := inv_written _ h; rw [← proj_written] at this; exact this
+  | writeFailed => have := inv_writeFailed _ .boom h; rw [← proj_writeFailed] at this; exact this
+  | abort => have := inv_abort _ h; rw [← proj_abort] at this; exact this
+  | cancel => have := inv_cancel _ h; rw [← proj_cancel] at this; exact this
+
+theorem inv_run : ∀ (evs : List Event) (s : S), InvK (proj s) →
+    InvK (proj (run s evs)) ∧ s.fires <+: (run s evs).fires := by
+  intro evs
+  induction evs with
+  | nil => intro s h; exact ⟨h, List.prefix_refl _⟩
+  | cons e evs ih =>
+    intro s h
+    obtain ⟨h1, p1⟩ := inv_step s e h
+    obtain ⟨h2, p2⟩ := ih (step s e) h1
+    exact ⟨by simpa [run] using h2, by simpa [run] using p1.trans p2⟩
+
+/-- the invariant bounds the number of firings -/
+theorem inv_fires_le (s : S) (h : InvK (proj s)) : s.fires.length ≤ 1 := by
+  cases hch : s.chained
+  · rcases h.b hch with ⟨_, h2⟩ | ⟨_, h2, _⟩
+    · have : s.fires = [] := h2
+      simp [this]
+    · have : s.fires.length = 1 := h2
+      omega
+  · have : s.fires = s.respD.toList := h.a hch
+    rw [this]; cases s.respD <;> simp
+
+/-- once fired, always fired exactly once -/
+theorem fired_persists (evs : List Event) (s : S) (h : InvK (proj s)) (hf : s.fires.length = 1) :
+    (run s evs).fires.length = 1 := by
+  obtain ⟨h1, p1⟩ := inv_run evs s h
+  have := inv_fires_le _ h1
+  have := p1.length_le
+  omega
+
+/-- **The request Deferred fires exactly once** — for every request mode, EVERY event script: deliveries of
+    arbitrary bytes (well-formed or not) in arbitrary segmentation, `deliverBody`, `abort()`, `cancel()`, request
+    written / failed, in any order and number — as soon as the script contains the loss of the connection (at any
+    position: every truncation point of every response).  Proof: the invariant `InvK` over the control projection
+    `proj` of the state is preserved by every event, `dataReceived` included (`TwistedProps/C23/Data.lean`:
+    `lrLoop` → `lineReceived` → `allHeadersReceived` / `rawDataReceived` → `_finished` → `_finishResponse`), and
+    `connectionLost` fires whatever had not fired. -/
+theorem request_deferred_fires_once (h p a d : Bool) (evs : List Event) (hlost : ∃ r, Event.lost r ∈ evs) :
+    (run (Twisted.Http.Client.init h p a d) evs).fires.length = 1 := by
+  suffices H : ∀ (evs : List Event) (s : S), InvK (proj s) → (∃ r, Event.lost r ∈ evs) → (run s evs).fires.length = 1 from
+    H evs _ (inv_init h p a d) hlost
+  intro evs
+  induction evs with
+  | nil => intro s _ hl; obtain ⟨r, hr⟩ := hl; simp at hr
+  | cons e evs ih =>
+    intro s hs hl
+    obtain ⟨h1, _⟩ := inv_step s e hs
+    obtain ⟨r, hr⟩ := hl
+    simp only [List.mem_cons] at hr
+    rcases hr with hr | hr
+    · subst hr
+      have hf : (step s (.lost r)).fires.length = 1 := by
+        have := (inv_connectionLost _ r hs).2
+        rw [← proj_connectionLost] at this
+        exact this
+      simpa [run] using fired_persists evs _ h1 hf
+    · simpa [run] using ih (step s e) h1 ⟨r, hr⟩
+
+/-- without the loss of the connection: at most once, for every event script -/
+theorem request_deferred_fires_at_most_once (h p a d : Bool) (evs : List Event) :
+    (run (Twisted.Http.Client.init h p a d) evs).fires.length ≤ 1 :=
+  inv_fires_le _ (inv_run evs _ (inv_init h p a d)).1
+
+/-- non-vacuity: "HTTP/1.1 200 OK\r\nContent-Length: 3\r\n\r\nab" in two pieces cut inside the header name, then the
+    connection is lost inside the body: one firing, the response; the body protocol gets "ab" and one failure -/
+example :
+    let s := run (Twisted.Http.Client.init false false false true)
+      [.data [72, 84, 84, 80, 47, 49, 46, 49, 32, 50, 48, 48, 32, 79, 75, 13, 10, 67, 111, 110, 116],
+       .data [101, 110, 116, 45, 76, 101, 110, 103, 116, 104, 58, 32, 51, 13, 10, 13, 10, 97, 98],
+       .lost .connectionDone]
+    s.fires = [.response] ∧ s.delivered = [97, 98] ∧ s.lost = [.failed [.connectionDone, .dataLoss]] := by
+  decide +kernel
+
+/-- non-vacuity: the connection is lost inside the header block: one firing, `ResponseFailed([ConnectionDone])` -/
+example :
+    (run (Twisted.Http.Client.init false false false true)
+      [.data [72, 84, 84, 80, 47, 49, 46, 49, 32, 50, 48, 48, 32, 79, 75, 13, 10, 67, 111], .lost .connectionDone]).fires =
+    [.responseFailed [.connectionDone]] := by
+  decide +kernel
 
 /-- **The body delivered equals the body received** (Response layer): the pieces `ds1` the decoder emitted before
     `deliverBody` and the pieces `ds2` emitted after it reach the body protocol as exactly `ds1 ++ ds2`,
